@@ -4,7 +4,8 @@
   decode_desc_chunk, the codec's init, validate_sfinfo / validate_psf), and the small write session
   (caf_open for write, the write call's bookkeeping in sndfile.c, SFC_UPDATE_HEADER_NOW / AUTO, caf_close).
 
-  Not described (parse answers `unmodelled`): 'chan', 'info', 'pakt' chunks, ALAC, a non-integral sample rate,
+  Not described (parse answers `unmodelled`): the 'pakt' chunk, ALAC, what the 'chan' / 'info' chunks carry (they are walked, their
+  content belongs to the metadata model), a non-integral sample rate,
   anything after the 'data' chunk other than what ends the scan, skips that could leave the header cache.
 -/
 import SfModel.Basic
@@ -164,7 +165,19 @@ def walk (bs : List Byte) (ch : Nat) : Nat → Rd → Scan → Walk
       if csize ≠ 4 + 12 * (ch : Int) then .err else
       let r := (rdBE bs r 4).2
       fin (rdPeaks bs ch r) s
-    else if m == mk "chan" ∨ m == mk "info" ∨ m == mk "pakt" then .unmodelled
+    else if m == mk "chan" then
+      -- caf_read_chanmap: "E444" then the rest of the chunk is skipped (the map itself does not reach SF_INFO)
+      if csize < 12 then skipChunk r else
+      if (r.indx : Int) + csize > cacheLimit then .unmodelled else
+      let r := (rdSeq bs [4, 4, 4] r).2
+      if r.failed then .unmodelled else fin (skip bs r (csize - 12)) s
+    else if m == mk "info" then
+      -- caf_read_strings: "E4b" reads the count and all the key/value bytes in one go; a chunk of exactly 4 bytes is not read at all
+      if csize < 4 then .err else
+      if csize > flen - (r.indx : Int) then .err else
+      if (r.indx : Int) + csize > cacheLimit then .unmodelled else
+      if csize > 4 then fin (rdSeq bs [4, (csize - 4).toNat] r).2 s else fin r s
+    else if m == mk "pakt" then .unmodelled
     else if m == mk "data" then
       let r := (rdBE bs r 4).2                            -- the edit count
       let hi : Int := r.indx
